@@ -28,8 +28,11 @@ def run_property(prop: str, repo: Path, tier: str, seed: int, write_evidence: bo
         check_params_stable(ctx)
         check_decorators(ctx)
         check_overrides(ctx)
-        from .rules.common import check_module_effects
+        from .rules.common import check_class_state, check_module_effects, check_njit_options, check_special_methods
+        check_special_methods(ctx)
         check_module_effects(ctx)
+        check_class_state(ctx)
+        check_njit_options(ctx)
         from .rules.support import check_reachable_support
         check_reachable_support(ctx)
         extra = {}
